@@ -1,7 +1,7 @@
 SPECIFICATION TraceSpec
 CONSTANTS
   Variant = "ok"
-  MaxP = 9
+  MaxP = 10
   Scripts <- CatAll
 POSTCONDITION Accepted
 CHECK_DEADLOCK FALSE
